@@ -486,7 +486,7 @@ sub-pipeline boundary un-narrowed). -/
 theorem runtime_narrow_assignable (st : StructTable) (hst : StructsOk st) (F : Nat) (hF : NarrowFix st F)
     (ρ : Store) (f : ForkAssign) (r : RExp) (t t' : Ty) (h : HasTyR st t r) (hs : Sub st t t') :
     narrow st F t' (evalRT st F ρ f t r) = evalRT st F ρ f t' r ∧ HasTyR st t' r :=
-  narrow_evalRT st hst F hF ρ f r t t' h hs
+  narrow_evalRT st hst F hF ρ r t t' f h hs
 
 /-- Static projection along a whole path (`BindingPath`) commutes with the TYPED run-time
 evaluation, the types moving along (`bindingPath_sound_forks` is the untyped law). -/
@@ -498,13 +498,15 @@ theorem static_projection_typed (st : StructTable) (hst : StructsOk st) (F : Nat
   projPath_evalRT st hst F hF ρ f path r t h hp
 
 /-- One binding: for a source expression typed in an environment whose entries are related
-to the static environment, den's (narrowed) value is the run-time evaluation of what
-`resolveExp` (= `resolveRefs`, then `filter`) produces. -/
+to the static environment (in every fork assignment of `Fs`), den's (narrowed) value is the
+run-time evaluation, in any such fork assignment, of what `resolveExp` (= `resolveRefs`,
+then `filter`) produces. -/
 theorem resolveExp_refines_eval (st : StructTable) (hst : StructsOk st) (F : Nat) (hF : NarrowFix st F)
-    (ρ : Store) (env : Env) (self sib : RBMap) (hrel : EnvRel st F ρ env self sib) (e : Exp) (t : Ty)
+    (ρ : Store) (Fs : ForkAssign → Prop) (env : Env) (self sib : RBMap)
+    (hrel : EnvRel st F ρ Fs env self sib) (f : ForkAssign) (hf : Fs f) (e : Exp) (t : Ty)
     (h : HasTy st env.selfTy env.callTy t e) :
-    narrow st F t (eval st env e) = evalRT st F ρ [] t (filterR st t (resolveRefs self sib e)) :=
-  (eval_resolveExp st hst F hF ρ env self sib hrel e t h).1
+    narrow st F t (eval st env e) = evalRT st F ρ f t (filterR st t (resolveRefs self sib e)) :=
+  (eval_resolveExp st hst F hF ρ Fs env self sib hrel f hf e t h).1
 
 /--
 PARTIAL (the refinement, for the plain fragment).  For every well-typed PLAIN program
